@@ -214,7 +214,7 @@ PROPS = {
         "trusted": ["the mint account base layout / Anchor InterfaceAccount<Mint> unpacking (accounts of length 82 or > 165, never 355); sequences of instructions are covered through the write-site inventory, not executed"],
     },
     "C20": {
-        "lean_modules": ["WP.Props.C20", "WP.Props.SdkStep", "WP.Props.SdkSwap"],
+        "lean_modules": ["WP.Props.C20", "WP.Props.SdkStep", "WP.Props.SdkSwap", "WP.Props.SdkLiquidity"],
         "lean_support": ["WP.Props.SdkSearch"],
         "families": [("sdkmath", 100000, 5000000), ("sdkticks", 0, 0), ("sdkaf", 60000, 3000000), ("hist", 12000, 300000)],
         "history": True,
